@@ -744,8 +744,10 @@ def c06(run, an=None):
                 unresolved[p["id"]] = p
                 if len(unresolved) > rm:
                     # known sub-case: the broker's window is smaller than what must be replayed
-                    only_replays = all(q["dup"] for q in unresolved.values())
-                    f = "F5c" if only_replays else None
+                    # known sub-case F5c: the replays carried over from earlier connections alone fill
+                    # or exceed the window this CONNACK announced
+                    replays = sum(1 for q in unresolved.values() if q["dup"])
+                    f = "F5c" if replays >= rm else None
                     out.append(V("C06", "receive-maximum-exceeded", f"transport {t}: {len(unresolved)} unresolved ids {sorted(unresolved)} > Receive Maximum {rm}", step=when[0], finding=f))
             elif side == "S":
                 if p["type"] in ("PUBACK", "PUBCOMP"):
@@ -815,9 +817,10 @@ def framed_exactly(data):
 
 
 def reference_decode(data):
-    """Classify one complete buffer as the reference sees it: ('ok', description) / ('bad', reason) / ('skip', why)."""
+    """Classify one complete buffer as the reference sees it: ('ok', description) / ('bad', reason) / ('skip', why).
+    Frame level only: property blocks stay raw (their interior is judged separately)."""
     try:
-        pkt, end = parse_server_packet(data, 0)
+        pkt, end = parse_server_packet(data, 0, raw_props=True)
     except Incomplete:
         return ("bad", "field past end of packet")
     except Malformed as e:
@@ -902,8 +905,8 @@ def c08(run, an=None):
                     out.append(V("C08", "valid-rejected", f"{data.hex()} is a valid {info['type']} but was rejected", step=st.idx))
                 elif got != want:
                     out.append(V("C08", "fields-differ", f"{data.hex()}: expected '{want}' got '{got}'", step=st.idx))
-                elif inner_bad and "field past end" in inner_reason(info):
-                    out.append(V("C08", "malformed-accepted", f"{data.hex()}: property field runs past the end of its block but the packet was accepted", step=st.idx, finding="F8"))
+                elif inner_bad and any(k in inner_reason(info) for k in ENUMERATED):
+                    out.append(V("C08", "malformed-accepted", f"{data.hex()}: the property block is malformed inside ({inner_reason(info)}) but the packet was accepted", step=st.idx, finding="F8"))
             elif cls == "bad":
                 if got != "err" and any(k in info for k in ENUMERATED):
                     out.append(V("C08", "malformed-accepted", f"{data.hex()} ({info}) was accepted as '{got}'", step=st.idx))
